@@ -122,6 +122,19 @@ def build_items(case):
             dims = rng.sample(names, rng.randint(1, 4))
             ents = ",".join(nm.replace("()", "(%d)" % rng.randint(1, 5)) for nm in dims)
             text = "10 DIM %s\n20 %s=\"X\"\n" % (ents, dims[0].replace("()", "(1)"))
+            if i % 3 == 1:
+                # the same names as arrays the source never DIMensions, under a size map of the item's own, under the shared
+                # one, or under none: sizes configured for one conversion are not sizes of the next
+                a1, a2 = rng.sample(["L$", "Q$", "B$"], 2)
+                text = "10 %s(1)=\"X\":%s(2)=%s(1)\n20 PRINT %s(2)\n" % (a1, a2, a1, a2)
+                it = {"kind": "convert", "text": text, "opts": {"default_str_storage": rng.choice([32, 64, 80]), "initialize_vars": i % 2 == 0}}
+                which = (i // 3) % 3
+                if which == 0:
+                    it["cfg"] = {a1 + "()": rng.choice([100, 200]), a2 + "()": 150}
+                elif which == 1:
+                    it["shared_cfg"] = True
+                items.append(it)
+                continue
             items.append({"kind": "convert", "text": text, "shared_cfg": True,
                           "opts": {"default_str_storage": rng.choice([32, 64, 80, 200]), "initialize_vars": i % 2 == 0}})
     elif case["kind"] == "cli":
